@@ -359,3 +359,48 @@ Proof. cbn. intros H. apply filter_In in H as [_ H]. now apply negb_true_iff in 
 
 Lemma process_keeps_not_due l m : In m (sent l) -> due (lnow l) m = false -> In m (sent (process l)).
 Proof. intros Hin Hd. cbn. apply filter_In. split; [exact Hin|now rewrite Hd]. Qed.
+
+(* ---- end to end: after release and a flush everything sent was handed out exactly once ---- *)
+
+Definition flush (dt : N) : list ev := [Release; Tick dt; Drain true; Drain false].
+
+Lemma flush_empties g l dt :
+  (forall m, In m (sent l) -> mstat m = OnHold \/ exists t, mstat m = After t /\ t <= lnow l + dt) ->
+  ids_of (fin (run g l (flush dt))) = [].
+Proof.
+  intros Hs. unfold flush, fin. cbn [run step fst snd].
+  set (rel := release_msgs (lnow l) (sent l)).
+  assert (Hdue : forall m, In m rel -> due (lnow l + dt) m = true).
+  { intros m Hin. unfold rel, release_msgs in Hin. apply in_map_iff in Hin as (m' & <- & Hin).
+    destruct (Hs m' Hin) as [Ho|(t & Ht & Hle)].
+    - rewrite Ho. unfold due. cbn. apply N.leb_le. lia.
+    - rewrite Ht. unfold due. rewrite Ht. apply N.leb_le. exact Hle. }
+  unfold ids_of. cbn [process sent ready_a ready_b lnow set_now release set_sent set_states].
+  fold rel.
+  rewrite (filter_all_false (fun m => negb (due (lnow l + dt) m)) rel)
+    by (intros m Hin; rewrite (Hdue m Hin); reflexivity).
+  reflexivity.
+Qed.
+
+Lemma c08_exactly_once_lemma g es dt :
+  Forall c08_event es -> NoDup (send_ids es) ->
+  (let l := fin (run g init es) in
+   forall m, In m (sent l) -> mstat m = OnHold \/ exists t, mstat m = After t /\ t <= lnow l + dt) ->
+  forall x, In x (send_ids es) -> cnt x (outs (run g init (es ++ flush dt))) = 1%nat.
+Proof.
+  intros Hal Hnd Hs x Hin.
+  assert (Hal' : Forall c08_event (es ++ flush dt))
+    by (apply Forall_app; split; [exact Hal|repeat constructor]).
+  pose proof (c08_conservation_lemma g (es ++ flush dt) x Hal') as Hc.
+  rewrite send_ids_app in Hc. cbn [flush send_ids flat_map app] in Hc. rewrite app_nil_r in Hc.
+  assert (H1 : cnt x (send_ids es) = 1%nat).
+  { pose proof (proj1 (NoDup_cnt _) Hnd x) as Hle.
+    assert (0 < cnt x (send_ids es))%nat by (apply count_occ_In; exact Hin). lia. }
+  assert (H0 : mass x (fin (run g init (es ++ flush dt))) = 0%nat).
+  { rewrite run_app. destruct (run g init es) as [[g1 l1] o1] eqn:Hr.
+    unfold fin in Hs; cbn [fst snd] in Hs.
+    pose proof (flush_empties g1 l1 dt Hs) as He.
+    destruct (run g1 l1 (flush dt)) as [[g2 l2] o2]. unfold fin in *; cbn [fst snd] in *.
+    unfold mass. rewrite He. reflexivity. }
+  lia.
+Qed.
